@@ -153,20 +153,6 @@ pub open spec fn img_rr(ssrc: int, padding: int, blocks: Seq<Seq<u8>>) -> Seq<u8
     img_rr_prefix(ssrc, padding, blocks, blocks.len() as int) + img_padding(padding)
 }
 
-pub proof fn lemma_concat_blocks_len(blocks: Seq<Seq<u8>>, k: int, w: int)
-    requires
-        0 <= k <= blocks.len(),
-        forall|i: int| 0 <= i < blocks.len() ==> (#[trigger] blocks[i]).len() == w,
-    ensures
-        concat_blocks(blocks, k).len() == k * w,
-    decreases k,
-{
-    if k > 0 {
-        lemma_concat_blocks_len(blocks, k - 1, w);
-        assert(k * w == (k - 1) * w + w) by (nonlinear_arith);
-    }
-}
-
 // ---- RFC 3550 6.6 BYE ----------------------------------------------------------------------------
 // header(SC, PT=203) | SC x SSRC | optional: length (8 bits) | reason for leaving ... zero-filled to a 32-bit boundary
 pub open spec fn bye_ok(s: Seq<u8>) -> bool {
